@@ -44,88 +44,115 @@ ElementIs(o, want, ask) ==
   /\ ask \subseteq Asked(o)
 
 \* the XPath data model of the same element (text-expanded view only, the way xq evaluates):
-\* count of all attributes and string(@name); defaulted attributes are attributes like the others
-XPathIs(o, want, ask) ==
+\* count of all attributes (`cnt`) and string(@name); defaulted attributes are attributes like the others
+XPathIs(o, want, cnt, ask) ==
   /\ "xp" \in DOMAIN o
   /\ o.xp.st = "ok"
-  /\ o.xp.count = Cardinality(want)
+  /\ o.xp.count = cnt
   /\ \A i \in 1..Len(o.xp.str) : o.xp.str[i].st = "ok" /\ o.xp.str[i].v = Lookup(want, o.xp.str[i].n)
   /\ ask \subseteq { o.xp.str[i].n : i \in 1..Len(o.xp.str) }
 
-\* W(doc, i) = the set of effective attributes demanded of element i
-ViewIs(doc, view, W(_, _)) ==
+\* W(doc, i) = the set of effective attributes demanded of element i, K(doc, i) = their number in XPath
+ViewIs(doc, view, W(_, _), K(_, _)) ==
   /\ view.parse = "ok"
   /\ Len(view.els) = Len(doc.els)
   /\ \A i \in 1..Len(doc.els) : ElementIs(view.els[i], W(doc, i), AskNames(doc, i))
-  /\ (view.view = "exp" => \A i \in 1..Len(doc.els) : XPathIs(view.els[i], W(doc, i), AskNames(doc, i)))
+  /\ (view.view = "exp" => \A i \in 1..Len(doc.els) : XPathIs(view.els[i], W(doc, i), K(doc, i), AskNames(doc, i)))
 
-EventIs(e, W(_, _)) == \A k \in 1..Len(e.views) : ViewIs(DocOf(e), e.views[k], W)
+EventIs(e, W(_, _), K(_, _)) ==
+  /\ Len(e.views) = 2 /\ e.views[1].view = "raw" /\ e.views[2].view = "exp"
+  /\ \A k \in 1..Len(e.views) : ViewIs(DocOf(e), e.views[k], W, K)
 
-Ideal(e) == Len(e.views) = 2 /\ EventIs(e, Expected)
+ExpectedCount(doc, i) == Cardinality(Expected(doc, i))
+Ideal(e) == EventIs(e, Expected, ExpectedCount)
 
 (***************************************************************************)
-(* Catalogue of open deviations: each entry is an exact as-is model - an   *)
-(* alternative definition of the effective attributes that applies under   *)
-(* an exact condition.  An event that is not ideal gets the name of the    *)
-(* entry whose as-is model reproduces the whole observation (both views,   *)
-(* every element, values, specified flags, length, get_attribute, XPath); a*)
-(* different wrong answer matches nothing and is a VIOLATION.              *)
+(* Catalogue of open deviations.  Each entry is an exact as-is model: an   *)
+(* exact condition under which it applies and the exact wrong outcome.     *)
+(* The models compose: D(e) is the set of open entries whose condition     *)
+(* holds for the event's document; an event that is not ideal is a known   *)
+(* finding only if the as-is model under D(e) reproduces the WHOLE         *)
+(* observation (both views, every element, names, values, specified flags, *)
+(* length, get_attribute, XPath count and strings).  Then one VERDICT per  *)
+(* entry of D(e) is printed.  A different wrong answer matches nothing and *)
+(* is a VIOLATION; an entry that is not in Open is never applied.          *)
 (*                                                                         *)
 (* "required-attribute-materialized": XmlElement::attributes() adds an     *)
 (* attribute for every binding definition that is not #IMPLIED, so an      *)
 (* unwritten #REQUIRED attribute is reported with the empty value and      *)
-(* specified = false (it has no default value to take).  Pinned by the     *)
-(* repository's own test info::tests::test_attribute_specified_required,   *)
-(* so it cannot be repaired with the test suite unedited.                  *)
+(* specified = false.  Pinned by the repository's own test                 *)
+(* info::tests::test_attribute_specified_required.                         *)
+(*                                                                         *)
+(* "defaulted-attributes-collapse-in-xpath": attributes supplied by the    *)
+(* DTD all carry id 0 / order 0 (same test pins that), and XPath node-sets *)
+(* are deduplicated by that key: when an element has two or more           *)
+(* unspecified attributes the attribute axis keeps one of them, so the     *)
+(* count is (#specified + 1); string(@name) is not affected (a name test   *)
+(* selects at most one of them).  DOM observations are not affected.       *)
 (***************************************************************************)
-Catalogue == {"required-attribute-materialized"}
+Catalogue == {"required-attribute-materialized", "defaulted-attributes-collapse-in-xpath"}
 
 RequiredUnwritten(doc, i) ==
   LET d == DefsFor(doc.attlists, doc.els[i].el)
   IN { n \in { d[k].n : k \in 1..Len(d) } \ WrittenNames(doc.els[i].written) :
           BindingDef(doc.attlists, doc.els[i].el, n).dk = "REQUIRED" }
 
-AsIs(name, doc, i) ==
-  CASE name = "required-attribute-materialized" ->
-         Expected(doc, i) \cup { [n |-> n, v |-> <<>>, spec |-> FALSE] : n \in RequiredUnwritten(doc, i) }
-    [] OTHER -> Expected(doc, i)
+AsIsAttrs(D, doc, i) ==
+  Expected(doc, i) \cup
+  (IF "required-attribute-materialized" \in D
+   THEN { [n |-> n, v |-> <<>>, spec |-> FALSE] : n \in RequiredUnwritten(doc, i) } ELSE {})
 
-Applies(name, doc) ==
-  CASE name = "required-attribute-materialized" -> \E i \in 1..Len(doc.els) : RequiredUnwritten(doc, i) # {}
-    [] OTHER -> FALSE
+AsIsCount(D, doc, i) ==
+  LET as == AsIsAttrs(D, doc, i)
+      un == Cardinality({ x \in as : ~x.spec })
+  IN IF "defaulted-attributes-collapse-in-xpath" \in D /\ un >= 2
+     THEN Cardinality(as) - un + 1 ELSE Cardinality(as)
 
-Matching(e) ==
-  { name \in Catalogue \cap Open :
-       LET W(d, i) == AsIs(name, d, i)
-       IN Applies(name, DocOf(e)) /\ Len(e.views) = 2 /\ EventIs(e, W) }
+\* the open entries whose condition holds for this document
+Active(doc) ==
+  LET R == IF "required-attribute-materialized" \in Open
+              /\ \E i \in 1..Len(doc.els) : RequiredUnwritten(doc, i) # {}
+           THEN {"required-attribute-materialized"} ELSE {}
+      C == IF "defaulted-attributes-collapse-in-xpath" \in Open
+              /\ \E i \in 1..Len(doc.els) : Cardinality({ x \in AsIsAttrs(R, doc, i) : ~x.spec }) >= 2
+           THEN {"defaulted-attributes-collapse-in-xpath"} ELSE {}
+  IN (R \cup C) \cap Catalogue
 
-\* a compact description of the first disagreement, for the replay file
+MatchesAsIs(e) ==
+  LET D == Active(DocOf(e))
+      W(d, i) == AsIsAttrs(D, d, i)
+      K(d, i) == AsIsCount(D, d, i)
+  IN D # {} /\ EventIs(e, W, K)
+
+\* a compact description of the first disagreement with the ideal, for the replay file
 Why(e) ==
   LET doc == DocOf(e)
-      bad == { k \in 1..Len(e.views) : ~ViewIs(doc, e.views[k], Expected) }
-      k   == CHOOSE x \in bad : \A y \in bad : x <= y
-      v   == e.views[k]
-  IN IF v.parse # "ok" THEN [view |-> v.view, what |-> "parse", got |-> v.parse]
-     ELSE IF Len(v.els) # Len(doc.els) THEN [view |-> v.view, what |-> "elements", got |-> Len(v.els)]
-     ELSE LET be == { i \in 1..Len(doc.els) : ~ElementIs(v.els[i], Expected(doc, i), AskNames(doc, i)) }
-          IN IF be = {} THEN [view |-> v.view, what |-> "xpath", want |-> [i \in 1..Len(doc.els) |-> Expected(doc, i)],
-                              got |-> [i \in 1..Len(doc.els) |-> IF "xp" \in DOMAIN v.els[i] THEN v.els[i].xp ELSE [st |-> "missing"]]]
-             ELSE LET i == CHOOSE x \in be : \A y \in be : x <= y
-                  IN [view |-> v.view, what |-> "attributes", el |-> i, want |-> Expected(doc, i), got |-> v.els[i]]
+      bad == { k \in 1..Len(e.views) : ~ViewIs(doc, e.views[k], Expected, ExpectedCount) }
+  IN IF bad = {} THEN [what |-> "views"]
+     ELSE
+      LET k == CHOOSE x \in bad : \A y \in bad : x <= y
+          v == e.views[k]
+      IN IF v.parse # "ok" THEN [view |-> v.view, what |-> "parse", got |-> v.parse]
+         ELSE IF Len(v.els) # Len(doc.els) THEN [view |-> v.view, what |-> "elements", got |-> Len(v.els)]
+         ELSE LET be == { i \in 1..Len(doc.els) : ~ElementIs(v.els[i], Expected(doc, i), AskNames(doc, i)) }
+              IN IF be = {}
+                 THEN [view |-> v.view, what |-> "xpath", want |-> [i \in 1..Len(doc.els) |-> Expected(doc, i)],
+                       got |-> [i \in 1..Len(doc.els) |-> IF "xp" \in DOMAIN v.els[i] THEN v.els[i].xp ELSE [st |-> "missing"]]]
+                 ELSE LET i == CHOOSE x \in be : \A y \in be : x <= y
+                      IN [view |-> v.view, what |-> "attributes", el |-> i, want |-> Expected(doc, i), got |-> v.els[i]]
 
-Verdict(e) ==
-  IF ~CaseOk(e) THEN [verdict |-> "TOOL-BAD-CASE"]
+\* the set of verdict records of an event (empty = ideal)
+Verdicts(e) ==
+  IF ~CaseOk(e) THEN { [verdict |-> "TOOL-BAD-CASE"] }
   ELSE IF "text" \in DOMAIN e /\ e.text # Render(DocOf(e))
-       THEN [verdict |-> "TOOL-RENDER-MISMATCH", want |-> Render(DocOf(e))]
-  ELSE IF Ideal(e) THEN [verdict |-> "ok"]
-  ELSE LET m == Matching(e)
-       IN IF Cardinality(m) = 1 THEN [verdict |-> CHOOSE n \in m : TRUE, why |-> Why(e)]
-          ELSE [verdict |-> "VIOLATION", why |-> Why(e), text |-> Render(DocOf(e))]
+       THEN { [verdict |-> "TOOL-RENDER-MISMATCH", want |-> Render(DocOf(e))] }
+  ELSE IF Ideal(e) THEN {}
+  ELSE IF MatchesAsIs(e) THEN { [verdict |-> n, why |-> Why(e)] : n \in Active(DocOf(e)) }
+  ELSE { [verdict |-> "VIOLATION", why |-> Why(e), text |-> Render(DocOf(e)), active |-> Active(DocOf(e))] }
 
 Init == l = 1
 Next == /\ l <= Len(Rec)
-        /\ LET v == Verdict(Rec[l])
-           IN  IF v.verdict = "ok" THEN TRUE ELSE PrintT(<<"VERDICT", ToJson([i |-> l] @@ v)>>)
+        /\ \A v \in Verdicts(Rec[l]) : PrintT(<<"VERDICT", ToJson([i |-> l] @@ v)>>)
         /\ l' = l + 1
 Spec == Init /\ [][Next]_l
 
